@@ -13,7 +13,7 @@ import vlib
 
 LIBS = ("mpt++", "mptplot", "mptcore")      # link order of an application using libmpt++: its metatype creators override the C ones
 CFG = {
-    "quick":    dict(mc=["MC_LayoutTree.cfg"], gen="Gen_LayoutTree.cfg", ndocs=40, nitems=14),
+    "quick":    dict(mc=["MC_LayoutTree.cfg"], gen="Gen_LayoutTree.cfg", ndocs=32, nitems=14),
     "thorough": dict(mc=["MC_LayoutTree_t.cfg", "MC_LayoutTree_t2.cfg"], gen="Gen_LayoutTree_t.cfg", ndocs=300, nitems=30),
 }
 DRV_ENV = {"ASAN_OPTIONS": vlib.ASAN_ENV + ":symbolize=0"}
